@@ -41,6 +41,51 @@ def vector_ro(rng, n, ed_start, explicit_start=(), explicit_end=()):
     return B.ro_doc('RO', 1, stories, ed_start=ed_start, pretty=rng.random() < 0.5)
 
 
+def header_placement(s):
+    """roEdStart (and other header fields) need not stand in front of the stories: documents that carry it behind
+    or between them, and the state two messages leave - a roMetadataReplace that adds roEdStart to a running order
+    that had none (it lands behind the stories), then a story appended / moved behind it."""
+    import re
+    idx = 0
+    for n in (1, 3, 4):
+        for where in ('behind', 'between', 'behind-then-more'):
+            idx += 1
+            if not s.mine(idx):
+                continue
+            rng = s.rng('placement', idx)
+            txt = vector_ro(rng, n, '2024-05-01T18:00:00').replace('\n', '')
+            txt = re.sub(r'>\s+<', '><', txt)
+            ed = '<roEdStart>2024-05-01T18:00:00</roEdStart>'
+            txt = txt.replace(ed, '', 1)
+            ends = [m.end() for m in re.finditer('</story>', txt)]
+            at = ends[-1] if where != 'between' or n == 1 else ends[0]
+            extra = ed + ('<roChannel>c</roChannel>' if where == 'behind-then-more' else '')
+            txt = txt[:at] + extra + txt[at:]
+            acc.sweep(s, s.load(txt), txt, {'header-placement': where}, after='initial')
+            s.hist['header_placement_states'] += 1
+    for tail in ('roStoryAppend', 'roStoryMove', 'EAStoryInsert', 'EAStoryMove'):
+        idx += 1
+        if not s.mine(idx):
+            continue
+        rng = s.rng('placement-history', tail)
+        txt = vector_ro(rng, 3, None)
+        ro = s.load(txt)
+        cur = txt
+        new = B.story('T9', 'late', [B.item('T9.i', 'x')], timing_el=B.timing(text_time=4.5))
+        steps = [B.msg_doc('roMetadataReplace', 10, carried=[E('roSlug', 'x'), E('roChannel', 'c'), E('roEdStart', '2024-05-01T18:00:00')]),
+                 {'roStoryAppend': B.msg_doc('roStoryAppend', 11, carried=[new]),
+                  'roStoryMove': B.msg_doc('roStoryMove', 11, ids=['T0'], target=B.BLANK),
+                  'EAStoryInsert': B.msg_doc('EAStoryInsert', 11, target=B.BLANK, carried=[new]),
+                  'EAStoryMove': B.msg_doc('EAStoryMove', 11, ids=['T1', 'T0'], target=B.BLANK)}[tail],
+                 B.msg_doc('roStoryMove', 12, ids=['T2'], target='T1')]
+        for k_, msg in enumerate(steps):
+            ro, err, v, ev = s.step(ro, msg, {'placement-history': tail, 'step': k_})
+            if ev is not None and ev.get('post_xml'):
+                cur = ev['post_xml']
+            acc.sweep(s, ro, cur, {'placement-history': tail, 'step': k_}, after=(ev or {}).get('msg_cls'))
+        s.hist['header_placement_histories'] += 1
+
+
 def run(s):
     q = s.tier == 'quick'
     for k_, txt_ in enumerate(K.idless_states()):
@@ -53,6 +98,8 @@ def run(s):
         acc.sweep(s, s.load(big_), big_, {'workload': '1100 stories'})
         s.hist['very_long_running_orders'] += 1
 
+    header_placement(s)
+
     def on_pair_state(ro, cur, ev):
         acc.sweep(s, ro, cur, {'workload': 'pair-history'}, after=(ev or {}).get('msg_cls'))
     for i_ in range(150 if q else 6000):
@@ -60,7 +107,7 @@ def run(s):
             acc.interleaved(s, i_)
     K.pair_histories(s, timing='timed', text='plain', on_state=on_pair_state)
     idx = 0
-    starts = ('2020-01-01T12:30:00', None, '')
+    starts = ('2020-01-01T12:30:00', None, '', '2021-03-28T00:59:57', '2021-10-31T01:59:57')
     for n in range(0, 11):
         for rep in range(3 if q else 25):
             for ed in starts:
@@ -74,7 +121,7 @@ def run(s):
         subsets = [c for k in range(n + 1) for c in itertools.combinations(range(n), k)]
         for es in subsets:
             for ee in subsets:
-                for ed in starts[:2]:
+                for ed in (starts[0], starts[1], starts[3]):
                     idx += 1
                     if s.mine(idx):
                         rng = s.rng('explicit', idx)
